@@ -185,6 +185,7 @@ func raceMain(args []string) {
 	}
 	phase("cold-start")
 	// sequential baseline
+	mismPre := []string{}
 	base := make([][]string, len(cases))
 	for i, c := range cases {
 		t0 := time.Now()
@@ -193,9 +194,17 @@ func raceMain(args []string) {
 			fmt.Fprintf(os.Stderr, "slow case %d (%d bytes): %v\n", i, len(c.q), d)
 		}
 	}
+	// the relations between calls of the public API that the observer decides on every case (arguments left as they were, options
+	// slice untouched, expression unchanged by use): the ones that belong to this property are reported here
+	for i := 0; i < nScale; i++ {
+		c := cases[i]
+		if r := guard(func() string { return apiRelations(c.q, c.df, shared[i]) }); strings.HasPrefix(r, "DIFF:C14:") {
+			mismPre = append(mismPre, fmt.Sprintf("%s case=%d query=%.300q df=%q", strings.TrimPrefix(r, "DIFF:C14:"), i, c.q, c.df))
+		}
+	}
 	phase("baseline")
 	// a second sequential pass in another order must agree already (state leaking between calls)
-	mism := []string{}
+	mism := append([]string{}, mismPre...)
 	var mu sync.Mutex
 	report := func(kind string, i int, k int, got, want string) {
 		mu.Lock()
